@@ -478,3 +478,44 @@ package values
 //@ loop 4 invariant result: rv_valid(result) && !rv_iface(result) && typeof(rv_val(result)) == typ
 //@ loop 5 invariant result: rv_valid(result) && !rv_iface(result) && typeof(rv_val(result)) == typ
 //@ loop 5 invariant keys: forall(j, 0, len(_r), rv_valid(_r[j]) && pl_mhas(rv_val(rv), rv_val(_r[j])) && (rv_iface(_r[j]) || (rv_val(_r[j]) != nil && tassignable(typeof(rv_val(_r[j])), tkey(typeof(rv_val(rv)))))))
+
+// ---- remaining Value methods: panic-freedom (C01) ---------------------------------------
+//@ func values.conversionError
+//@ props C01
+//@ panics nothing
+//@ assigns nothing
+//@ ensures typed: result != nil && is(result, values.TypeError)
+
+//@ func (values.wrapperValue).Equal
+//@ props C01 C09
+//@ panics nothing
+//@ requires arg: other != nil
+//@ assigns nothing
+//@ func (values.wrapperValue).Less
+//@ props C01 C09
+//@ panics nothing
+//@ requires arg: other != nil
+//@ assigns nothing
+//@ func (values.wrapperValue).Int
+//@ props C01
+//@ panics values.TypeError
+//@ assigns nothing
+//@ func (values.valueEmbed).Int
+//@ props C01
+//@ panics values.TypeError
+//@ assigns nothing
+//@ func (values.arrayValue).Contains
+//@ props C01 C09
+//@ panics nothing
+//@ requires arg: ev != nil
+//@ assigns nothing
+//@ func (values.mapValue).Contains
+//@ props C01 C09
+//@ panics nothing
+//@ requires arg: iv != nil
+//@ assigns nothing
+//@ func (values.genericSortable).Less
+//@ props C01 C15
+//@ panics nothing
+//@ requires inrange: 0 <= i && i < len(s) && 0 <= j && j < len(s)
+//@ assigns nothing
